@@ -12,6 +12,9 @@ import (
 )
 
 var imports []string
+
+// packages the file imports on demand (`import a.b.*;`), in source order
+var onDemandImports []string
 var clzs []string
 var currentPkg string
 var currentClz string
@@ -49,6 +52,7 @@ var hasEnterClass = false
 func NewJavaFullListener(nodes map[string]core_domain.CodeDataStruct, file string) *JavaFullListener {
 	identMap = nodes
 	imports = nil
+	onDemandImports = nil
 	// per-file tables: a name declared in one file must not type a receiver in the next
 	mapFields = make(map[string]string)
 	localVars = make(map[string]string)
@@ -153,6 +157,9 @@ func (s *JavaFullListener) EnterPackageDeclaration(ctx *parser.PackageDeclaratio
 func (s *JavaFullListener) EnterImportDeclaration(ctx *parser.ImportDeclarationContext) {
 	importText := ctx.QualifiedName().GetText()
 	imports = append(imports, importText)
+	if ctx.MUL() != nil && ctx.STATIC() == nil {
+		onDemandImports = append(onDemandImports, importText)
+	}
 	currentNode.Imports = append(currentNode.Imports, core_domain.NewJImport(importText))
 }
 
